@@ -140,6 +140,10 @@ class StructParam(Parameter):
                     pobj.insideRW += 1  # guarded by self.accessLock
                     try:
                         return {m: getattr(self, f)(value[m]) for m, f in funclist}
+                    except Exception:
+                        # some members may be written already: keep the struct consistent with them
+                        self.announceUpdate(name, {m: getattr(self, f[6:]) for m, f in funclist})
+                        raise
                     finally:
                         pobj.insideRW -= 1
 
